@@ -1,5 +1,5 @@
 CONSTANT Sets = {1, 2, 3}
-CONSTANT Gs = {1, 2, 3, 16, 0}
+CONSTANT Gs = {1, 2, 3, 4, 6, 16, 0}
 CONSTANT Reps = 3
 INIT Init
 NEXT Next
